@@ -251,6 +251,22 @@ class SymMap:
         self.get = get
         self.dom = dom  # callable(Ten term) -> BoolRef ; derived from keys when None
 
+    def sym_setitem(self, interp, key, v):
+        """d[key] = v for a key NOT yet present (insertion at the end); overwriting keeps the position."""
+        from . import prims as P
+        if not isinstance(key, TRef):
+            raise Unsupported("non-tensor key")
+        cx = interp.cx
+        dom = P.map_dom(interp, self)
+        present = cx.branch(dom(key.ref))
+        old_get, old_keys, k = self.get, self.keys, key.ref
+        self.get = lambda t: ite_val(t == k, v, old_get(t))
+        if not present:
+            n = lift(old_keys.length)
+            self.keys = SymSeq(z3.simplify(n + 1), lambda i: ite_val(lift(i) == n, key, old_keys.get(i)), distinct=True)
+            self.dom = lambda t: z3.Or(t == k, dom(t))
+            self._keyset = None
+
 
 # ----------------------------------------------------------------------------- tensors
 
